@@ -24,7 +24,7 @@ def run(ctx: core.Ctx) -> None:
                   or x['cfg']['errors'] == 'bogus' or any(v >= 100 for v in (x['fin'].get('wb') or []))]
         ctx.extra.setdefault('fault_behaviours', {})[name] = len(faulty)
         sc.replay(ctx, faulty, all_variants=not quick, what=name)
-    sim = sc.simulate_and_emit(ctx, 'long', 6 if quick else 12, inv, num=4000 if quick else 60000)
+    sim = sc.simulate_and_emit(ctx, 'long', 6 if quick else 12, inv, num=2000 if quick else 60000)
     sc.replay(ctx, sim, all_variants=False, what='long-sim')
     ctx.exhaustive = False
     suite = sc.record_suite(ctx, ['tests/test_core.py', '-k', 'ErrorHandling or NonConvergence or CustomModel or CustomOverrides'], 'suite')
